@@ -11,7 +11,15 @@
    history, every thread count and every FileSys behaviour. *)
 From stdpp Require Import gmap.
 From Coq Require Import List NArith.
-From P9 Require Import Model.SessLock Proofs.SessLockProofs Proofs.SessLockProofsLin Proofs.SessLockProofsScopes.
+From P9 Require Import Model.SessLock Proofs.SessLockProofs Proofs.SessLockProofsLin Proofs.SessLockProofsScopes Proofs.SessLockProofsTie.
+From P9 Require Import Gen.GenSessLock.
+
+(* the programs below were transcribed from the functions whose lock-protocol skeleton (returns, defers,
+   Lock/Unlock, table calls, FileSys calls, SFid field accesses, in source order) the translator has just
+   re-extracted from the current source: it is still the transcribed one *)
+Theorem C14_source_skeleton_unchanged : sesslock_skeleton = transcribed_skeleton.
+Proof. exact skeleton_unchanged. Qed.
+Print Assumptions C14_source_skeleton_unchanged.
 
 (* "After any operation returns, successfully or not, no fid is left locked" - structurally: on every
    path of every method (every answer of every table/field/FileSys action, all error returns) each lock
